@@ -114,6 +114,20 @@ def step (st : State) (w : List String) : State × String :=
       let ls := labelsOf name
       (st, s!"w={asStr qt (asWire st.zones ls qt)} m={asStr qt (asMsg st.zones ls qt)}")
     | _, _ => (st, "bad-op")
+  | "sx" :: "walk" :: kv =>
+    match kvGet kv "name" with
+    | some name =>
+      let ls : List Bytes := (labelsOf name).map fun l => l.toList.map Char.toNat
+      let showName (labs : List Bytes) : String :=
+        if labs.isEmpty then "." else String.join (labs.map fun l => String.ofList (l.map Char.ofNat) ++ ".")
+      -- the wire walk yields byte suffixes: read each back through the strict-path name walk
+      let wire := (walkWireSuffixes ((encName ls).length + 1) (encName ls)).map fun b =>
+        match walkName (b.length + 1) b with
+        | some (labs, _) => showName labs
+        | none => "?"
+      let dec := "|".intercalate ((decodedAncestors ls).map showName)
+      (st, s!"w={"|".intercalate wire} f={dec} d={dec}")
+    | none => (st, "bad-op")
   | "ch" :: "run" :: kv =>
     let g := kvGet kv
     let parseHop (h : String) : Option Hop :=
